@@ -173,6 +173,16 @@ def comprehension_locals(chk):
         '(let [x 1] [(lfor x [5] :do None x) x])': [[5], 1],
         '(let [x 1] (defn f [] [(lfor x [5] x) x]) (f))': [[5], 1],
         '(let [x 1] [(lfor y [5] :if (do (setv z y) True) :setv x z x) x])': [[5], 1],
+        # a definition inside a let whose name is let-bound: its defaults, annotations, decorators and bases are evaluated before the
+        # name is rebound, so a reference to the name there still means the let binding
+        '(setv f "outer") (let [f "let"] (defn f [[a f]] a) (f))': "let",
+        '(setv f "outer") (let [f "let"] (defn f [* [a f]] a) (f))': "let",
+        '(let [f "let"] (defn f [#^ f a] a) (get f.__annotations__ "a"))': "let",
+        '(let [f (fn [g] (fn [] ["decorated" (g)]))] (defn [f] f [] 1) (f))': ["decorated", 1],
+        '(defn g [] (let [f "let"] (defn f [[a f]] a) (f))) (g)': "let",
+        '(let [C object] (defclass C [C] (setv tag 1)) [C.tag (. C __mro__ [1] __name__)])': [1, "object"],
+        '(let [f "let"] (defn #^ f f [] 1) (get f.__annotations__ "return"))': "let",
+        '(let [f 7] (setv f (fn [[a f]] a)) (f))': 7,
     }
     for src, want in cases.items():
         try:
